@@ -7,6 +7,9 @@ Decided on the MIR of the current tree, for the whole library (all call historie
   (b) draw_to_term is called only from methods of Drawable;
   (c) Drawable::Term / Drawable::TermLike values are constructed only in ProgressDrawTarget::drawable (Drawable::Multi also in
       disconnect, which hands over to MultiState::clear -> its own drawable());
+  (e) no function of the library branches on the result of an is_hidden() call (hidden-ness acts only through the gate); a
+      branch is a candidate that is reported only after a native differential run (hidden vs. visible bar, every single
+      operation and every ordered pair of operations, all getters compared) shows a difference;
   (d) in ProgressDrawTarget::drawable, symbolically executed path by path with the branch conditions as SMT terms (z3 and cvc5):
       no path constructs a Drawable while the target kind is Hidden, and no path constructs Drawable::Term unless
       Term::is_term() was called on it and returned true -- whatever force_draw and the rate limiter say.
@@ -213,6 +216,48 @@ def run(tier, logdir):
         structural("(b) draw_to_term is called only from Drawable methods", bad_b, n_dtt, "draw_to_term calls")
         structural("(c) Drawable values are constructed only in ProgressDrawTarget::drawable (Multi: also disconnect)", bad_c, n_ctor, "Drawable constructions")
 
+        # (e) hidden-ness influences behaviour only through drawable(): no function branches on an is_hidden() result.
+        #     A branch is only a CANDIDATE (skipping rendering work would be harmless); it is reported after the native
+        #     differential run (hidden bar vs. visible bar, same calls, compare every getter) shows a difference.
+        cand_e = []
+        for f in mir.fns:
+            name = P.short(f.name)
+            if "verif" in name or "::tests::" in name or name.startswith("in_memory"):
+                continue
+            hidden_locals = set()
+            for bb, stmts in f.blocks.items():
+                for s_ in stmts:
+                    cal = callee_of(s_)
+                    if cal and re.sub(r"::<.*?>", "", cal).endswith("::is_hidden"):
+                        c = CALL_RE.match(s_)
+                        hidden_locals.add(c.group(1).strip())
+            changed = True
+            while changed:  # copies / negations of the result
+                changed = False
+                for bb, stmts in f.blocks.items():
+                    for s_ in stmts:
+                        m = re.match(r"^(_\d+) = (?:Not\()?(?:copy|move) (_\d+)\)?;$", s_)
+                        if m and m.group(2) in hidden_locals and m.group(1) not in hidden_locals:
+                            hidden_locals.add(m.group(1))
+                            changed = True
+            for bb, stmts in f.blocks.items():
+                for s_ in stmts:
+                    m = re.match(r"^switchInt\((?:copy|move) (_\d+)\)", s_)
+                    if m and m.group(1) in hidden_locals:
+                        cand_e.append((name, s_))
+        label_e = "(e) no function branches on is_hidden(): hidden-ness acts only through drawable()"
+        if not cand_e:
+            queries.append({"name": label_e, "verdict": "PASS", "bounds": "every function of the library", "wall_s": 0})
+        else:
+            differs, detail = native_differential(root)
+            if differs is True:
+                art = artefact("hidden_vs_visible", {"property": "C06", "rule": "(e)", "function": cand_e[0][0], "statement": cand_e[0][1], "native": detail})
+                queries.append({"name": "%s branches on is_hidden() and a hidden bar's logical state differs from a visible bar's" % cand_e[0][0], "verdict": "FAIL",
+                                "why": detail, "replayed": True, "replay_path": art, "wall_s": 0})
+            else:
+                queries.append({"name": label_e, "verdict": "INCONCLUSIVE", "why": "%s branches on is_hidden() (`%s`); the native differential run %s" % (
+                    cand_e[0][0], cand_e[0][1][:80], "found no difference between a hidden and a visible bar" if differs is False else "could not be run: " + str(detail)[:300]), "wall_s": 0})
+
         fn = mir.find("drawable", self_ty="ProgressDrawTarget")
         paths, decls = sym_paths(fn)
         hidden = variant_index(src, "TargetKind", "Hidden")
@@ -265,8 +310,87 @@ def run(tier, logdir):
     return {"queries": queries, "assumptions": assumptions, "encodes": enc, "bounds": ["engine M (terminal gate): all call sites of the library; every path of ProgressDrawTarget::drawable"]}
 
 
+DIFF_TEST = r'''
+#[cfg(test)]
+mod verif_c06_differential {
+    use crate::{InMemoryTerm, ProgressBar, ProgressDrawTarget, ProgressStyle};
+
+    fn snapshot(pb: &ProgressBar) -> String {
+        format!("pos={} len={:?} finished={} msg={:?} prefix={:?}", pb.position(), pb.length(), pb.is_finished(), pb.message(), pb.prefix())
+    }
+
+    #[test]
+    fn verif_c06_hidden_vs_visible() {
+        type Op = (&'static str, fn(&ProgressBar));
+        let ops: Vec<Op> = vec![
+            ("inc(3)", |p| p.inc(3)),
+            ("set_position(7)", |p| p.set_position(7)),
+            ("set_length(9)", |p| p.set_length(9)),
+            ("inc_length(2)", |p| p.inc_length(2)),
+            ("dec_length(1)", |p| p.dec_length(1)),
+            ("unset_length", |p| p.unset_length()),
+            ("set_message(a<TAB>b)", |p| p.set_message("a\tb")),
+            ("set_prefix(<TAB>p)", |p| p.set_prefix("\tp")),
+            ("set_tab_width(3)", |p| p.set_tab_width(3)),
+            ("set_style", |p| p.set_style(ProgressStyle::with_template("{prefix}|{msg}").unwrap())),
+            ("tick", |p| p.tick()),
+            ("println", |p| p.println("x")),
+            ("suspend", |p| p.suspend(|| ())),
+            ("reset", |p| p.reset()),
+            ("reset_eta", |p| p.reset_eta()),
+            ("finish_with_message(<TAB>z)", |p| p.finish_with_message("\tz")),
+            ("abandon", |p| p.abandon()),
+            ("finish_and_clear", |p| p.finish_and_clear()),
+            ("finish", |p| p.finish()),
+        ];
+        // every operation alone, and every ordered pair of operations
+        let mut n = 0u64;
+        for i in 0..ops.len() {
+            for j in 0..=ops.len() {
+                let hidden = ProgressBar::with_draw_target(Some(10), ProgressDrawTarget::hidden());
+                let visible = ProgressBar::with_draw_target(Some(10), ProgressDrawTarget::term_like(Box::new(InMemoryTerm::new(10, 80))));
+                let mut desc = String::from(ops[i].0);
+                (ops[i].1)(&hidden);
+                (ops[i].1)(&visible);
+                if j < ops.len() {
+                    desc = format!("{desc}; {}", ops[j].0);
+                    (ops[j].1)(&hidden);
+                    (ops[j].1)(&visible);
+                }
+                n += 1;
+                let (h, v) = (snapshot(&hidden), snapshot(&visible));
+                if h != v {
+                    println!("DIFFERENTIAL differs after [{desc}]: hidden {h} / visible {v}");
+                    return;
+                }
+            }
+        }
+        println!("DIFFERENTIAL same histories={n}");
+    }
+}
+'''
+
+
+def native_differential(root):
+    """-> (True differs / False same / None could not run, detail)"""
+    from props.C05 import native_test
+    try:
+        rc, out = native_test(root, "lib.rs", DIFF_TEST, "verif_c06_hidden_vs_visible", timeout=900, features="in_memory")
+    except Exception as e:  # noqa
+        return None, repr(e)
+    m = re.search(r"DIFFERENTIAL (differs|same) (.*)", out)
+    if not m:
+        pm = re.search(r"(error[^\n]*\n[^\n]*|panicked at [^\n]*\n[^\n]*)", out)
+        return None, (pm.group(0) if pm else out[-400:])
+    return (m.group(1) == "differs"), m.group(0)
+
+
 def replay(path):
     d = json.load(open(path))
+    if "native" in d:
+        differs, detail = native_differential(common.scratch_root())
+        say(detail)
+        return 2 if differs is None else (1 if differs else 0)
     r = run("quick", None)
     hit = [q for q in r["queries"] if q["verdict"] == "FAIL" and (d.get("function", "") in q["name"] or d.get("what", "@@") in q["name"])]
     if hit:
